@@ -47,6 +47,10 @@ ASSUMPTIONS = [
     "produces the input of the search; an Allocation lives in the positive quadrant, keeps ratios in [0, 1] and "
     "divides by the total area of every listed module (so a listed module has a positive ratio somewhere) - the "
     "generator keeps to that; Rectangle's process-wide epsilon is undefined before and after",
+    "input-file path (two thirds of the allocation cases): the dict rect_io.get_alloc returns ({'Width','Height',"
+    "'Rectangles': [{name: [{'dim': [xc, yc, w, h]}, {'mod': [{module: ratio}]}]}]}) is written down directly - centre "
+    "and size are the binary64 values of the exact decimal numbers, as reading them from a file gives - and handed "
+    "to select_box; such a file is not confined to the positive quadrant (the property says: any origin)",
     "select_box's snapping tolerance is 1e-9 x the largest coordinate magnitude (binary64 product in the code, exact "
     "rational in the model): generated grid lines are at least 1/100 apart with magnitudes below 2^10, so no "
     "comparison is near the threshold",
@@ -101,12 +105,42 @@ def gen_axis_decimal(rng, n):
     return xs
 
 
+def gen_axis_decimal_any(rng, n):
+    """n cells -> n + 1 increasing decimal coordinates anywhere on the axis: ending exactly at 0, with 0 as an inner
+    grid line, with 0 inside a cell, wholly negative, far from the origin on either side (a hand-made input file is not
+    confined to the positive quadrant)."""
+    step = rng.choice([None, None, Fraction(1, 10), Fraction(1, 10), Fraction(3, 10), Fraction(7, 100)])
+    steps = [step or Fraction(rng.choice([1, 1, 2, 3, 7, 11, 5, 13]), rng.choice([10, 10, 100, 20])) for _ in range(n)]
+    total = sum(steps)
+    mode = rng.choice(["end0", "end0", "end0", "line0", "inside0", "neg", "farneg", "farpos", "pos"])
+    if mode == "end0":
+        o = -total
+    elif mode == "line0":
+        o = -sum(steps[:rng.randrange(0, n + 1)])
+    elif mode == "inside0":
+        i = rng.randrange(n)
+        o = -sum(steps[:i]) - steps[i] / 2
+    elif mode == "neg":
+        o = -total - Fraction(rng.choice([1, 3, 17, 250]), 10)
+    elif mode == "farneg":
+        o = -Fraction(rng.choice([10003, 123456, 9999999]), 10) - total
+    elif mode == "farpos":
+        o = Fraction(rng.choice([10003, 123456, 9999999]), 10)
+    else:
+        o = Fraction(rng.choice([0, 1, 3, 17]), 10)
+    xs = [o]
+    for st in steps:
+        xs.append(xs[-1] + st)
+    return xs
+
+
 STYLES = ["unit0", "int0", "frac0", "shift-int", "shift-frac", "unit0", "int0", "frac0", "shift-int", "shift-frac",
           "tiny"]
 # the first 10 are the "small" sizes (every other case): half of them a single row or column
 SIZES = [(1, 1), (2, 1), (1, 2), (3, 1), (1, 3), (2, 2), (3, 2), (2, 3), (3, 3), (1, 4), (4, 1), (4, 2), (2, 4),
          (4, 3), (3, 4), (4, 4), (5, 2), (2, 5), (5, 3), (3, 5), (5, 4), (4, 5), (5, 5), (5, 1), (1, 5), (3, 3),
          (6, 1), (1, 6)]
+BIG_SIZES = [(11, 3), (3, 11), (6, 6), (33, 1), (1, 34), (7, 5), (8, 4), (4, 8)]     # 32..36 cells: beyond 32
 OCC = [Fraction(v, 4) for v in (0, 0, 1, 2, 3, 4, 4, 4, 5, 8)]     # 0, values inside (0, 1], above 1 (5/4, 2)
 
 
@@ -147,17 +181,25 @@ def make_alloc(rng, case, decimal):
         case["bound"] = -10 ** 9
 
 
-def gen_case(rng, small=False, alloc=None):
+def gen_case(rng, small=False, alloc=None, via="file", big=False):
     """alloc: None (the grid is given to solve directly), False (through an allocation, dyadic numbers),
-    True (through an allocation with decimal coordinates: direct oracle only)."""
+    True (through an allocation with decimal coordinates: direct oracle only).
+    via: "file" (allocation text -> frame Allocation -> rect_io.get_alloc: positive quadrant only) or "ifile" (the
+    parsed input file, the dict get_alloc returns, handed to select_box directly: any origin)."""
     nx, ny = rng.choice(SIZES[:10] if small else SIZES)
-    if alloc:
+    if big:
+        nx, ny = rng.choice(BIG_SIZES)
+    if alloc and via == "ifile":
+        xs, ys = gen_axis_decimal_any(rng, nx), gen_axis_decimal_any(rng, ny)
+        if rng.random() < 0.5:          # one axis plain, so that the other one's position is what matters
+            ys = gen_axis_decimal(rng, ny)
+    elif alloc:
         xs, ys = gen_axis_decimal(rng, nx), gen_axis_decimal(rng, ny)
     else:
         while True:
             xs = gen_axis(rng, nx, rng.choice(STYLES))
             ys = gen_axis(rng, ny, rng.choice(STYLES))
-            if alloc is None or (xs[0] >= 0 and ys[0] >= 0):
+            if alloc is None or via == "ifile" or (xs[0] >= 0 and ys[0] >= 0):
                 break
     n = nx * ny
     order = list(range(n))
@@ -166,6 +208,10 @@ def gen_case(rng, small=False, alloc=None):
         rng.shuffle(order)
     elif m < 0.3:
         order = [r * nx + c for c in range(nx) for r in range(ny)]
+    elif m < 0.36:
+        order.reverse()                                   # bottom-up, right to left
+    elif m < 0.4:
+        order = [r * nx + c for r in reversed(range(ny)) for c in range(nx)]     # rows top-down
     cells = grid_cells(xs, ys, order)
     kind = "grid"
     m = rng.random()
@@ -190,7 +236,7 @@ def gen_case(rng, small=False, alloc=None):
         occ = [rng.choice(OCC) for _ in cells]
     if alloc is not None:
         occ = [min(p, Fraction(1)) for p in occ]          # an Allocation keeps ratios in [0, 1]
-    case = {"kind": kind, "cells": cells, "occ": occ, "k": rng.choice([1, 2, 2, 3, 3]), "factor": factor,
+    case = {"kind": kind, "cells": cells, "occ": occ, "k": rng.choice([1, 2, 2] if big else [1, 2, 2, 3, 3]), "factor": factor,
             "ratio": rng.choice([Fraction(2)] * 8 + [Fraction(3)] * 4 + [Fraction(5, 2)] * 4 + [Fraction(3, 2)] * 3 +
                                 [Fraction(1)]), "bound": 0,
             "history": None}
@@ -208,7 +254,12 @@ def gen_case(rng, small=False, alloc=None):
         case["bound"] = rng.randint(minneg - 1, 0)
     if alloc is not None:
         make_alloc(rng, case, alloc)
-    if rng.random() < 0.15:
+        case["alloc"]["via"] = via
+    m = rng.random()
+    if m < 0.1 and not big:
+        # as rect's main does: the SAME carrier and input file are used for several solves (other k, other bound)
+        case["history"] = {"same": True, "k": rng.choice([1, 2, 3]), "bound": rng.randint(minneg - 1, max(maxpos, 1))}
+    elif m < 0.25:
         case["history"] = {"kind": "grid", "cells": grid_cells([Fraction(0), Fraction(1), Fraction(3)],
                                                                [Fraction(0), Fraction(2)], [0, 1]),
                            "occ": [Fraction(1), Fraction(1, 2)], "k": 1, "factor": 4, "ratio": Fraction(2),
@@ -245,6 +296,18 @@ def through_allocation(case):
     import os
     import tempfile
     Rectangle.undefine_epsilon()
+    if case["alloc"].get("via") == "ifile":
+        # the parsed input file as get_alloc builds it, written down directly: centre and size are the binary64 values
+        # of the exact decimal numbers (what reading them from a file gives)
+        rects = []
+        for i, ((x1, y1, x2, y2), mods) in enumerate(zip(case["cells"], case["alloc"]["mods"])):
+            dim = [float((x1 + x2) / 2), float((y1 + y2) / 2), float(x2 - x1), float(y2 - y1)]
+            rects.append({f"b{i}": [{"dim": dim}, {"mod": [{nm: float(Fraction(r))} for nm, r in mods]}]})
+        xs = [c[0] for c in case["cells"]] + [c[2] for c in case["cells"]]
+        ys = [c[1] for c in case["cells"]] + [c[3] for c in case["cells"]]
+        ifile = {"Width": float(max(xs) - min(xs)), "Height": float(max(ys) - min(ys)), "Rectangles": rects}
+        inp, _ = IO.select_box("M", ifile)
+        return ifile, [tuple(float(v) for v in c) for c in inp]
     fd, path = tempfile.mkstemp(prefix="c08-alloc-", suffix=".yaml")      # get_alloc takes a file name
     try:
         with os.fdopen(fd, "w") as f:
@@ -280,11 +343,12 @@ def make_carrier(case):
     return car, ifile
 
 
-def call_solve(case):
-    """Runs rect.solve on the case; returns (carrier, recorded manager or None, return value or exception name)."""
+def call_solve(case, pre=None):
+    """Runs rect.solve on the case; returns (carrier, recorded manager or None, return value or exception name).
+    pre: an existing (carrier, ifile) to be used again."""
     import tools.rect.rect as R
     import tools.rect.satmanager as SM
-    car, ifile = make_carrier(case)
+    car, ifile = pre or make_carrier(case)
     made = []
     orig = SM.SATManager
 
@@ -353,10 +417,15 @@ def run_impl(case):
     del pb.memory[2:]
     pb.memory[0:2] = [0, 1]
     pb.mmap.clear()
-    if case.get("history"):
-        call_solve(case["history"])
+    pre = None
+    h = case.get("history")
+    if h and h.get("same"):
+        pre = make_carrier(case)
+        call_solve(dict(case, k=h["k"], bound=h["bound"]), pre=pre)
+    elif h:
+        call_solve(h)
     mem0_raw = list(pb.memory[2:])
-    car, sm, ret = call_solve(case)
+    car, sm, ret = call_solve(case, pre=pre)
     nmap = NameMap(car)
     obs = {"xs": list(car.xcoords), "ys": list(car.ycoords),
            "prevx": [[k, v] for k, v in car.prev_x.items()], "nextx": [[k, v] for k, v in car.next_x.items()],
@@ -372,6 +441,7 @@ def run_impl(case):
     obs["mem0"] = mem_nodes(mem0_raw, nmap)
     if obs["keyerror"]:
         return obs
+    obs["newmem"] = mem_nodes(list(pb.memory[2 + len(mem0_raw):]), nmap)
     obs["clauses"] = [[[nmap.var(l.v), bool(l.s)] for l in c] for c in sm.clauses]
     obs["vtable"] = [nmap.var(v) for v in sm.vtable[1:]]
     if obs["zerodiv"]:
@@ -479,20 +549,25 @@ def to_coq_solve(case, obs):
          f"{gdict(obs['prevx'])} {gdict(obs['nextx'])} {gdict(obs['prevy'])} {gdict(obs['nexty'])} "
          f"{gbool(obs['keyerror'])} ")
     if obs["keyerror"]:
-        o += "[] false [] 0%Z [] [])"
+        o += "[] false [] 0%Z [] [] [])"
     else:
         o += (f"{glist([glist([glit(l) for l in c]) for c in obs['clauses']])} {gbool(obs['sat'])} "
               f"{glist([gvar(v) for v in obs.get('true', [])])} {gz(obs['ret'][0])} "
-              f"{glist([gbox(r) for r in obs['rects']])} {glist([gvar(v) for v in obs['vtable']])})")
-    e = (f"c08_check Repaired {gproblem(case)} {case['k']} {gq(case['factor'])} {gq(case['ratio'])} "
-         f"{gz(case['bound'])} {gmem(obs['mem0'])} {o}")
+              f"{glist([gbox(r) for r in obs['rects']])} {glist([gvar(v) for v in obs['vtable']])} "
+              f"{gmem(obs['newmem'])})")
+    # small grids: ALL models of the implementation's formula against the specification; this also decides when the
+    # formula differs from the model's in form (not only in clause order / internal numbering)
+    models = None
+    if "models" in obs and len(obs["models"]) <= 4000:
+        ms = glist([glist([glist([gbool(x) for x in row]) for row in m]) for m in obs["models"]])
+        models = (f"c08_models_check {gproblem(case)} {case['k']} {gq(case['factor'])} {gq(case['ratio'])} "
+                  f"{gz(case['bound'])} {ms}")
+    chk = (f"c08_check Repaired {gproblem(case)} {case['k']} {gq(case['factor'])} {gq(case['ratio'])} "
+           f"{gz(case['bound'])} {gmem(obs['mem0'])} {o}")
+    e = f"(let models_ok := {models or 'false'} in {chk} models_ok{' && models_ok' if models else ''})"
     if not obs["keyerror"]:
         e = (f"({e}) && c08_quality_check {gproblem(case)} {gq(case['factor'])} {gq(case['ratio'])} {gz(obs['tba'])} "
              f"{gbool(obs['sat'])} {glist([gvar(v) for v in obs.get('true', [])])} {gq(obs['quality'])}")
-    if "models" in obs and len(obs["models"]) <= 4000:
-        ms = glist([glist([glist([gbool(x) for x in row]) for row in m]) for m in obs["models"]])
-        e = (f"({e}) && c08_models_check {gproblem(case)} {case['k']} {gq(case['factor'])} {gq(case['ratio'])} "
-             f"{gz(case['bound'])} {ms}")
     return e
 
 
@@ -794,22 +869,29 @@ def nontrivial(case):
 
 def dist_key(case):
     n = len(case["cells"])
-    kind = case["kind"] if not case.get("alloc") else ("alloc-decimal" if case["alloc"]["decimal"] else "alloc-dyadic")
+    kind = case["kind"] if not case.get("alloc") else \
+        (("ifile" if case["alloc"].get("via") == "ifile" else "alloc") + ("-decimal" if case["alloc"]["decimal"] else "-dyadic"))
     return f"{kind}/k{case['k']}/" + ("<=4" if n <= 4 else "<=9" if n <= 9 else "<=16" if n <= 16 else "<=25")
 
 
 def run(ctx, out, replay=None):
-    n = 500 if ctx.quick() else 7000
+    n = 500 if ctx.quick() else 5000
     out.rule = ("full grids of 1x1 .. 5x5 (and 6x1, 1x6) cells on strictly increasing dyadic coordinate lists (unit, "
                 "integer non-uniform, fractional extent, shifted integer / fractional / negative origin, cells so small "
                 "that the integer areas vanish - independently per axis); half of the cases from the ten smallest sizes, "
                 "five of which are a single row or column; cells listed row-major, column-major or shuffled; k 1..3; "
                 "occupancies 0, quarters up to 1, 5/4 and 2 (4% all zero, 3% only 0/1); factor 2..16; ratio 2, 3, 2.5, "
                 "1.5 and (1 in 20) 1; bounds from trivially met to unsatisfiable; 6% grids with a missing cell and 3% with "
-                "a degenerate cell (KeyError) for the correspondence only; 15% after an earlier solve in the same process; "
+                "a degenerate cell (KeyError) for the correspondence only; 15% after an earlier solve in the same process, "
+                "10% after an earlier solve (other k, other bound) with the SAME carrier and input-file objects, as rect's "
+                "main does; cells also listed reversed and rows top-down; one case in 125 has 32..36 cells (11x3, 6x6, "
+                "33x1, 1x34, 7x5, 8x4; k <= 2); "
                 "every 8th case reaches the search through a real Allocation, rect_io.get_alloc and select_box - "
                 "alternately with dyadic numbers (select_box compared with the model exactly) and with decimal "
-                "coordinates (tenths, hundredths, twentieths; uniform or not; direct oracle only); for <= 9 cells every "
+                "coordinates (tenths, hundredths, twentieths; uniform or not; direct oracle only); two thirds of these "
+                "hand the parsed input file (the dict get_alloc returns) to select_box directly, which is not confined to "
+                "the positive quadrant: decimal axes ending exactly at 0, with 0 as an inner line or inside a cell, wholly "
+                "negative, and 1e3..1e6 away from 0 on either side; for <= 9 cells every "
                 "model of the solver's formula projected on the cell variables is enumerated with PySAT and compared "
                 "with the independent enumeration of shapes meeting the bound; the variable table (registration "
                 "order) is compared as well; non-trivial = full grid with >= 3 cells and k >= 2; distinct by hash")
@@ -821,7 +903,10 @@ def run(ctx, out, replay=None):
         j = len(cases)
         # every 8th case reaches the search through an allocation (get_alloc + select_box), alternately with
         # dyadic numbers (compared with the model exactly) and decimal ones (direct oracle)
-        cases.append(gen_case(ctx.rng, small=(j % 2 == 0), alloc=(None if j % 8 != 5 else (j % 16 == 5))))
+        # ... and every other one of those hands the parsed input file to select_box directly (any origin: negative,
+        # ending at 0, straddling 0, far from 0)
+        cases.append(gen_case(ctx.rng, small=(j % 2 == 0), alloc=(None if j % 8 != 5 else (j % 16 != 5)),
+                              via=("ifile" if j % 8 == 5 and (j // 16) % 3 != 0 else "file"), big=(j % 125 == 51)))
     stats = {"sat": 0, "unsat": 0, "keyerror": 0, "zerodiv": 0, "zero_quality_denominator": 0, "enumerated_instances": 0, "models_enumerated": 0,
              "max_clauses": 0, "with_diagram": 0}
 
